@@ -259,6 +259,15 @@ def Db.eq (a b : Db) : Bool :=
 /-- `savetxt`: one line per row -/
 def bitstringOfRow (bits : Nat) (r : Row) : List Bool := (List.range bits).map (fun j => r.any (fun p => p.1 == j))
 
+/-- one line of `savetxt`: the bit string of the row, then (when names are requested) a blank and the name -/
+def savetxtLine (bits : Nat) (withNames : Bool) (r : Row) (nm : Option String) : List Char :=
+  (bitstringOfRow bits r).map (fun b => if b then '1' else '0') ++
+    (if withNames then ' ' :: (nm.getD "None").toList else [])
+
+/-- `savetxt`: one line per row, in row order -/
+def Db.savetxtLines (db : Db) (withNames : Bool) : List (List Char) :=
+  ((db.array.getD []).zip db.fpNames).map (fun p => savetxtLine db.bits withNames p.1 p.2)
+
 /-! ## abstract view -/
 
 /-- the rows of a database as fingerprints with names and properties -/
